@@ -319,7 +319,12 @@ def suppressClause (m o : Record) (suppressed : Bool) : Option String :=
     else if 2 * o.ttl < m.ttl then some "C10.suppressed-by-answer-below-half-ttl"
     else none
   else
-    if m.sameRecord o && decide (2 * o.ttl > m.ttl) then some "C10.known-answer-not-honoured" else none
+    if m.sameRecord o && decide (2 * o.ttl > m.ttl) then
+      -- D18: the code's `matches` also compares the cache-flush bit, the owner's letter case and
+      -- (addresses) the interface; a listed record that differs only there is the known finding
+      if m.matchesRec o then some "C10.known-answer-not-honoured"
+      else some "C10.known-answer-not-honoured-flush-case-or-interface"
+    else none
 
 def monSuppress (ts impl : List String) : Option String :=
   match (do
@@ -370,7 +375,10 @@ def monSuppressMsg (ts impl : List String) : Option String :=
       if s == "1" then
         if answers.any fun o => m.sameRecord o && decide (2 * o.ttl ≥ m.ttl) then none
         else some "C10.suppressed-without-matching-known-answer"
-      else if answers.any fun o => m.sameRecord o && decide (2 * o.ttl > m.ttl) then some "C10.known-answer-not-honoured"
+      else if answers.any fun o => m.sameRecord o && decide (2 * o.ttl > m.ttl) && m.matchesRec o then
+        some "C10.known-answer-not-honoured"
+      else if answers.any fun o => m.sameRecord o && decide (2 * o.ttl > m.ttl) then
+        some "C10.known-answer-not-honoured-flush-case-or-interface"
       else none
     | _, ["panic"] => some "C10.suppression-check-panics"
     | _, ["none"] => none
